@@ -5,6 +5,9 @@ import (
 	"context"
 	"errors"
 	"fmt"
+	"strings"
+	"sync"
+	"sync/atomic"
 	"testing"
 
 	cidlink "github.com/ipld/go-ipld-prime/linking/cid"
@@ -344,8 +347,59 @@ func TestC02Mgr(t *testing.T) {
 		} else {
 			chid = f.mkResponder(r.Pull, other, datatransfer.TransferID(1+c.Rng.Intn(1000)), v)
 		}
+		// in a quarter of the cases the node is stopped the moment the terminal status is announced, while
+		// the datastore is slow: the terminal status must be what a later lifetime finds
+		stopRace := reopened && variant%2 == 1
+		var termView *doubles.StateView
+		if stopRace {
+			var once sync.Once
+			var announced, stopping, readByStop atomic.Bool
+			f.ds.SetHook(func(op, key string) error {
+				if !strings.HasPrefix(key, "/3/") {
+					return nil
+				}
+				switch {
+				case op == "get" && stopping.Load():
+					readByStop.Store(true) // whatever Stop reads of the record, it reads now
+				case op == "put":
+					// a slow disk: every write takes a moment (subscribers hear of a transition before its
+					// write has landed), and the write that is in flight when the terminal status is announced
+					// is carried out, in order, but late - after the stopping node has had every chance to look
+					// at the record
+					for i := 0; i < 300 && !announced.Load(); i++ {
+						doubles.Yield(1)
+					}
+					for i := 0; announced.Load() && i < 20000 && !readByStop.Load(); i++ {
+						doubles.Yield(1)
+					}
+				}
+				return nil
+			})
+			m0 := f.m
+			f.sub.Inner = func(ev datatransfer.Event, st datatransfer.ChannelState) {
+				if st.ChannelID() == chid && st.Status() == term {
+					once.Do(func() {
+						termView, _ = doubles.ViewOf(st)
+						announced.Store(true)
+						go func() { stopping.Store(true); m0.Stop(bg) }()
+					})
+				}
+			}
+		}
 		mgrToTerminal(f, chid, r, term, variant)
-		v0 := f.view(chid)
+		var v0 *doubles.StateView
+		if stopRace {
+			settle()
+			f.ds.SetHook(nil)
+			f.sub.Inner = nil
+			v0 = termView
+			if v0 == nil {
+				c.Note("stop race: terminal status %s was never announced", term)
+			}
+			c.Count("stopped_at_terminal_announcement", 1)
+		} else {
+			v0 = f.view(chid)
+		}
 		if v0 == nil || v0.Status != term {
 			c.Violation("C02", "route-did-not-terminate", "manager route to %s for %s ended in %v", term, r, v0)
 			f.stop()
@@ -353,6 +407,15 @@ func TestC02Mgr(t *testing.T) {
 		}
 		if reopened {
 			f = f.reopen()
+		}
+		if stopRace {
+			if vr := f.view(chid); vr == nil || vr.Status != term {
+				c.Violation("C02", "terminal-status-lost-over-stop "+term.String(), "the channel was announced %s, the node was stopped at once (slow datastore) and the next lifetime finds it %v", term, vr)
+				f.stop()
+				return
+			} else {
+				v0 = vr
+			}
 		}
 		cur := func() *mgrFix { return f }
 		key := keyFor(f.ds.Log(), chid)
